@@ -146,6 +146,13 @@ def main() -> int:
         print("REPLAY: finding no longer present on the current tree")
         return 0
 
+    if rule_errors and not violations:
+        # a rule that could not be decided fails the run unless an unlisted violation stands on its own
+        # (a known finding is not a violation: it must not turn an undecided rule into a pass)
+        msg = "; ".join(rule_errors)
+        print(f"ANALYSIS-ERROR property={prop} {msg}")
+        write_evidence(prop, args.tier, seed, results, known, [], time.time() - t0, digest, extra, error=msg)
+        return 2
     clean_replays(prop)
     for e in rule_errors:
         print(f"NOTE: a rule could not be decided on this tree (it would be an ANALYSIS-ERROR on its own): {e}")
